@@ -7,6 +7,7 @@ package main
 // is executed.
 
 import (
+	"bytes"
 	"crypto/sha256"
 	"encoding/json"
 	"fmt"
@@ -81,6 +82,9 @@ type A struct {
 	taint    *Taint
 	sinks    *SinkInfo
 	apiReach map[*ssa.Function]bool
+
+	norm     *normResult
+	lineMaps map[string][]int // normalised file -> original line per line (0: inside inlined code)
 
 	obs      []*Ob
 	curRule  string
@@ -166,12 +170,34 @@ func (a *A) pos(p token.Pos) string {
 	if err != nil {
 		rel = ps.Filename
 	}
+	if lm, ok := a.lineMaps[ps.Filename]; ok && ps.Line < len(lm) {
+		// the file was normalised (helpers inlined): report the line of the file on disk; inside inlined
+		// code, the nearest preceding line that exists on disk, marked with '+'
+		l := ps.Line
+		for l > 0 && lm[l] == 0 {
+			l--
+		}
+		if l == ps.Line {
+			return fmt.Sprintf("%s:%d", rel, lm[l])
+		}
+		if l > 0 {
+			return fmt.Sprintf("%s:%d+", rel, lm[l])
+		}
+		return rel
+	}
 	return fmt.Sprintf("%s:%d", rel, ps.Line)
+}
+
+func inventoryPath() string {
+	if p := os.Getenv("VERIF_INVENTORY"); p != "" {
+		return p
+	}
+	return filepath.Join(envOr("VERIF_DIR", "/verif"), "sa", "inventory.txt")
 }
 
 // ---------------------------------------------------------------- loading
 
-func load(repo string, overlay map[string][]byte, tags string) (*A, error) {
+func loadPkgs(repo string, overlay map[string][]byte, tags string) ([]*packages.Package, error) {
 	os.Unsetenv("GOWORK")
 	os.Setenv("GOWORK", "off")
 	cfg := &packages.Config{
@@ -204,9 +230,57 @@ func load(repo string, overlay map[string][]byte, tags string) (*A, error) {
 	if len(errs) > 0 {
 		return nil, fmt.Errorf("type/load errors: %s", strings.Join(errs, "; "))
 	}
+	return pkgs, nil
+}
+
+// load type-checks the module and builds its SSA form. When the tree declares functions that are not
+// in the inventory (normalize.go), their same-package calls are inlined first and the analysis runs
+// on the normalised program; positions are mapped back to the files on disk.
+func load(repo string, overlay map[string][]byte, tags string) (*A, error) {
+	pkgs, err := loadPkgs(repo, overlay, tags)
+	if err != nil {
+		return nil, err
+	}
+	var norm *normResult
+	if inv, ierr := loadInventory(inventoryPath()); ierr == nil && os.Getenv("VERIF_NO_NORMALIZE") == "" {
+		fresh := false
+		for k := range declaredFuncs(repo, overlay) {
+			if !inv[k] {
+				fresh = true
+				break
+			}
+		}
+		if fresh {
+			norm = normalize(repo, pkgs, overlay, inv)
+			if len(norm.Inlined)+len(norm.Removed) > 0 {
+				npkgs, nerr := loadPkgs(repo, norm.Overlay, tags)
+				if nerr == nil {
+					pkgs = npkgs
+				} else {
+					norm.Skipped = append(norm.Skipped, "the normalised module does not load ("+nerr.Error()+"): analysing the tree as it is")
+					norm.Overlay = nil
+				}
+			} else {
+				norm.Overlay = nil
+			}
+		}
+	}
 	a := &A{Repo: repo, Pkgs: pkgs, SPkgs: map[string]*ssa.Package{}, TPkgs: map[string]*packages.Package{},
 		floors: map[string]int{}, info: map[string]any{}, seenKeys: map[string]int{}}
 	a.Fset = pkgs[0].Fset
+	a.norm = norm
+	if norm != nil && norm.Overlay != nil {
+		a.lineMaps = map[string][]int{}
+		for f, nb := range norm.Overlay {
+			ob, ok := overlay[f]
+			if !ok {
+				ob, _ = os.ReadFile(f)
+			}
+			if !bytes.Equal(ob, nb) {
+				a.lineMaps[f] = lineMap(ob, nb)
+			}
+		}
+	}
 	prog, spkgs := ssautil.AllPackages(pkgs, ssa.InstantiateGenerics)
 	prog.Build()
 	a.Prog = prog
